@@ -1,6 +1,6 @@
 #!/bin/bash
 # Build the simulator test binary against /repo's current working tree.
-# usage: build.sh [race]
+# usage: build.sh [race|inst]
 set -e
 export GOFLAGS=-mod=mod GOPROXY=off GOSUMDB=off GOTOOLCHAIN=local
 G=/root/go/pkg/mod/golang.org/toolchain@v0.0.1-go1.25.11.linux-amd64/bin/go
@@ -12,6 +12,17 @@ cp /repo/go.sum go.sum
 mkdir -p $HERE/bin
 if [ "$1" = "race" ]; then
   $G test -c -race -tags verif -o $HERE/bin/lssim-race.test .
+elif [ "$1" = "inst" ]; then
+  # conc-inst: a scratch copy of /repo's working tree in which the small
+  # concurrency primitives get a scheduling point before every statement
+  INST=$HERE/bin/repo-inst
+  rm -rf $INST && mkdir -p $INST
+  rsync -a --exclude .git /repo/ $INST/
+  $G run ./cmd/instrument $INST utils/climit utils/topics snapshot/storage
+  sed "s#=> /repo#=> $INST#" go.mod > go.inst.mod
+  cp go.sum go.inst.sum
+  $G test -c -modfile=go.inst.mod -tags verif -o $HERE/bin/lssim-inst.test .
+  rm -f go.inst.mod go.inst.sum
 else
   $G test -c -tags verif -o $HERE/bin/lssim.test .
 fi
